@@ -92,7 +92,7 @@ theorem cloneWithPrefixes_serialises (env : Env) (f : Forest) (inv : f.Inv)
   generalize hK' : (addSpec (A ++ B) f1.next order).1 = K' at hshape hmono hdecl ⊢
   subst hshape
   -- declarations of the source = declarations of the clone before the loop
-  have hdsrc : declsOfKids Ks = A.filterMap (fun k => fcNsPair k.value) := by
+  have hdsrc : fcDeclsOfKids Ks = A.filterMap (fun k => fcNsPair k.value) := by
     rw [← declsOfKids_split A B hA hB, ← nsDecls_erase c (.element name), ← nsDecls_erase hs (.element name)]
     simp only [erase]
     rw [hKe, hE1]
@@ -100,11 +100,11 @@ theorem cloneWithPrefixes_serialises (env : Env) (f : Forest) (inv : f.Inv)
   obtain ⟨sS, hwS, htS⟩ := writable_descend env node r _ _ rest (hser r hr hp) hp
   simp only [erase, writableTree, Bool.and_eq_true, List.all_eq_true] at hwS
   obtain ⟨⟨⟨hdefS, hnameS⟩, hattrS⟩, hkidsS⟩ := hwS
-  have hdS : (Tree.node (.element name) (eraseList Ks)).nsDecls = declsOfKids Ks := nsDecls_erase hs _ Ks
+  have hdS : (Tree.node (.element name) (eraseList Ks)).nsDecls = fcDeclsOfKids Ks := nsDecls_erase hs _ Ks
   rw [hdS] at hdefS hnameS hattrS hkidsS
   -- the clone
   simp only [List.map_cons, List.map_nil, erase, writableTree, Bool.and_eq_true, List.all_eq_true]
-  have hdC : (Tree.node (.element name) (eraseList (A ++ New ++ B))).nsDecls = declsOfKids (A ++ New ++ B) :=
+  have hdC : (Tree.node (.element name) (eraseList (A ++ New ++ B))).nsDecls = fcDeclsOfKids (A ++ New ++ B) :=
     nsDecls_erase c _ _
   rw [hdC]
   have hattrs : (Tree.node (.element name) (eraseList (A ++ New ++ B))).attrs =
@@ -119,21 +119,21 @@ theorem cloneWithPrefixes_serialises (env : Env) (f : Forest) (inv : f.Inv)
   let U : Nat → Prop := fun n => n ∈ unresolvedTree env (FStack.new []) (erase (.node hs (.element name) Ks))
   have hUdef : ∀ n, n ∈ unresolvedTree env (FStack.new []) (erase (.node hs (.element name) Ks)) → U n :=
     fun n hn => hn
-  have hunres : ∀ n, U n ↔ n ∈ unresolvedHere env ((FStack.new []).push (declsOfKids Ks)) name
+  have hunres : ∀ n, U n ↔ n ∈ unresolvedHere env ((FStack.new []).push (fcDeclsOfKids Ks)) name
       ((Tree.node (.element name) (eraseList Ks)).attrs.map (·.1)) ∨
-      n ∈ unresolvedList env ((FStack.new []).push (declsOfKids Ks)) (eraseList Ks) := by
+      n ∈ unresolvedList env ((FStack.new []).push (fcDeclsOfKids Ks)) (eraseList Ks) := by
     intro n
     show n ∈ unresolvedTree env (FStack.new []) (erase (.node hs (.element name) Ks)) ↔ _
     simp only [erase, unresolvedTree, List.mem_append, hdS]
-  have H1 : ∀ b ∈ ((FStack.new []).push (declsOfKids Ks)).top,
-      b ∈ ((FStack.new L0).push (declsOfKids (A ++ New ++ B))).top := by
+  have H1 : ∀ b ∈ ((FStack.new []).push (fcDeclsOfKids Ks)).top,
+      b ∈ ((FStack.new L0).push (fcDeclsOfKids (A ++ New ++ B))).top := by
     intro b hb
     rw [push_top, fc_mem_fullnameInfoNew] at hb ⊢
     rcases hb with h | ⟨h, _⟩
     · left; rw [hdsrc] at h; exact hmono b h
     · simp [FStack.new, FStack.top] at h
-  have H2 : ∀ b ∈ (sS.push (declsOfKids Ks)).top, U b.2 →
-      b ∈ ((FStack.new L0).push (declsOfKids (A ++ New ++ B))).top := by
+  have H2 : ∀ b ∈ (sS.push (fcDeclsOfKids Ks)).top, U b.2 →
+      b ∈ ((FStack.new L0).push (fcDeclsOfKids (A ++ New ++ B))).top := by
     intro b hb hU
     rw [push_top, fc_mem_fullnameInfoNew] at hb ⊢
     left
@@ -180,8 +180,8 @@ theorem cloneWithPrefixes_serialises (env : Env) (f : Forest) (inv : f.Inv)
   -- a default namespace in the clone is one in place
   have hsub := addSpec_decls_sub order A B f1.next hA hB
   rw [hK'] at hsub
-  have H4 : HasDefault ((FStack.new L0).push (declsOfKids (A ++ New ++ B))).top →
-      HasDefault (sS.push (declsOfKids Ks)).top := by
+  have H4 : HasDefault ((FStack.new L0).push (fcDeclsOfKids (A ++ New ++ B))).top →
+      HasDefault (sS.push (fcDeclsOfKids Ks)).top := by
     rintro ⟨n, hm, hn⟩
     refine ⟨n, ?_, hn⟩
     rw [push_top, fc_mem_fullnameInfoNew] at hm ⊢
@@ -259,7 +259,7 @@ theorem serialises_root (env : Env) (f : Forest) (inv : f.Inv) (r : HTree) (hr :
     unfold Forest.allHandles at hnd
     rw [hL, handlesList_append] at hnd
     intro hm
-    exact (List.nodup_append.mp hnd).2.2 _ hm _ (by simp [handlesList, handle_mem_handles]) rfl
+    exact (List.nodup_append.mp hnd).2.2 _ hm _ (by simp [handlesList, fc_handle_mem_handles]) rfl
   have hg : f.get? r.handle = some r := by
     unfold Forest.get?
     rw [hL, findList?_append_of_not_mem _ _ _ hn]
